@@ -156,7 +156,8 @@ int main(int argc, char** argv) {
         { StrWriter w; size_t n = serializeJson(d, w); if (bad.empty() && (w.out != c || n != c.size())) bad = "custom-writer"; }
 #ifdef AJ_ARDUINO
         { MockPrint mp; size_t n = serializeJson(d, (Print&)mp); if (bad.empty() && (mp.out != c || n != c.size())) bad = "print"; }
-        { ::String s; size_t n = serializeJson(d, s); if (bad.empty() && (string(s.c_str()) != string(c.c_str()) || n != c.size())) bad = "arduino-string"; }
+        { ::String s; s.limitCapacityTo((size_t)1 << 30);   // the test double refuses to grow past 1024 bytes unless told otherwise
+          size_t n = serializeJson(d, s); if (bad.empty() && (string(s.c_str()) != string(c.c_str()) || n != c.size())) bad = "arduino-string"; }
 #endif
         if (bad.empty() && SPY0.calls != callsBefore) bad = "allocator-called";
         out = string(ok ? "ok " : "nomem ") + showS(d.as<JsonVariantConst>()) + " " + (c.empty() ? "-" : hexs(c)) + " " + (p.empty() ? "-" : hexs(p)) + " " + (bad.empty() ? "dest-ok" : "dest-mismatch:" + bad);
